@@ -44,7 +44,7 @@ static void arm(const char *what, size_t inlen) {
     snprintf(BUDGET_WHAT, sizeof BUDGET_WHAT, "%s", what);
     vf_cpu_arm(BUDGET_WHAT, 2000);
     vf_alloc_budget = vf_alloc_calls + (strncmp(what, "qconfig", 7) ? 20000 : 4000 + (long)inlen / 4);
-    vf_bytes_budget = vf_ledger_live_bytes() + (long)(64 * inlen) + (1 << 20);
+    vf_bytes_budget = vf_ledger_live_bytes() + (long)(64 * inlen) + (64L << 20);   /* far above anything a document whose values stay below the classifier's 128 KiB can need */
 }
 static void disarm(void) { vf_alloc_budget = 0; vf_bytes_budget = 0; vf_cpu_disarm(); }
 
@@ -184,7 +184,7 @@ static char **SEEDS; static int NSEEDS; static char **SEEDCASE;
 static void load_seeds(const char *dir) {
     DIR *d = opendir(dir); if (!d) return;
     struct dirent *de; int cap = 0;
-    while ((de = readdir(d))) { size_t l = strlen(de->d_name); if (l < 6 || strcmp(de->d_name + l - 5, ".conf") || strstr(de->d_name, "_inc")) continue;
+    while ((de = readdir(d))) { size_t l = strlen(de->d_name); if (l < 6 || strcmp(de->d_name + l - 5, ".conf") || strstr(de->d_name, "_inc") || !strncmp(de->d_name, "mut-", 4)) continue;   /* mut-*: transient files of other shards */
         if (NSEEDS == cap) { cap = cap ? cap * 2 : 256; SEEDS = vf_xrealloc(SEEDS, sizeof(char *) * (size_t)cap); }
         char p[600]; snprintf(p, sizeof p, "%s/%s", dir, de->d_name); SEEDS[NSEEDS++] = vf_xdup(p, strlen(p) + 1); }
     closedir(d);
